@@ -76,7 +76,7 @@ pub fn random_rules(rng: &mut Rng, bi: usize, with_lua: bool) -> Vec<(String, St
     attrs
 }
 
-pub fn lua_oracle(tables: &mut Tables, attrs: &[(String, String)], path: &str, content: &str) {
+pub fn lua_oracle(tables: &mut Tables, attrs: &[(String, String)], path: &str, line: usize, content: &str) {
     let get = |k: &str| attrs.iter().find(|(n, _)| n == k).map(|(_, v)| v.clone());
     if let Some(script) = get("check-lua") {
         let arg = match get("check-lua-pattern") {
@@ -97,7 +97,7 @@ pub fn lua_oracle(tables: &mut Tables, attrs: &[(String, String)], path: &str, c
             }
             _ => (2, String::new()),
         };
-        tables.lua.insert((script, path.to_string(), arg), res);
+        tables.lua.insert((script, format!("{path}:{line}"), arg), res);
     }
 }
 
@@ -131,7 +131,7 @@ pub fn gen_repo(rng: &mut Rng, idx: usize, with_lua: bool, override_first: Optio
         for (k, b) in r.blocks.iter().enumerate() {
             let content = content_of(&r, k);
             tables.add_block(&b.attrs, content);
-            lua_oracle(&mut tables, &b.attrs, &path, content);
+            lua_oracle(&mut tables, &b.attrs, &path, b.ts.0, content);
         }
         files.push((path, lang, r));
     }
